@@ -4,7 +4,7 @@
     unit, list, prod, sumbool, sumor). *)
 Require Extraction.
 Require Import ExtrOcamlBasic.
-From Age Require Import Base Base64 Format FormatIO IO Stream Armor Bech32 Prims Recipients Age KeyFile Plugin SshEnc Cli Crypto CliFlags StreamNonceFacts ArmorFast PathLookup.
+From Age Require Import Base Base64 Format FormatIO IO Stream Armor Bech32 Prims Recipients Age KeyFile Plugin SshEnc Cli Crypto CliFlags StreamNonceFacts ArmorFast PathLookup IdFile.
 Extraction Blacklist List String Int Bytes.
 Extraction "model.ml"
   Base.n2b Base.b2n Base.split_on Base.join_on Base.dec_of_N
@@ -26,6 +26,6 @@ Extraction "model.ml"
   KeyFile.parse_identities KeyFile.parse_recipients KeyFile.cli_parse_identities KeyFile.cli_parse_recipients KeyFile.scan_lines
   Plugin.recipient_client Plugin.identity_client Plugin.transcript Plugin.atoi_zero
   SshEnc.enc_unwrap SshEnc.fresh
-  PathLookup.executed CliFlags.validate CliFlags.run_cli
+  IdFile.idfile IdFile.idfile_kind_of PathLookup.executed CliFlags.validate CliFlags.run_cli
   Cli.decrypt_cli Cli.encrypt_cli Cli.keygen_cli Cli.keygen_stdout
   Age.encrypt_history Age.decrypt_open Age.decrypt_bytes Age.decrypt_src Age.label_rule Age.wrap_all.
